@@ -59,6 +59,9 @@ func (g *gen) Generate(typs []types.Type) error {
 	if !ok {
 		return fmt.Errorf("%s, the first argument, %s, is not of type slice", g.GetFuncName(typ), typ)
 	}
+	if !types.Comparable(sliceType.Elem()) {
+		return fmt.Errorf("%s, the element type of %s cannot be used as the key of a map", g.GetFuncName(typ), typ)
+	}
 	return g.genFuncFor(sliceType)
 }
 
